@@ -158,18 +158,27 @@ package compiler
 //@     invariant done: forall s: int :: 0 <= s && s <= $i && schemas[s].Package == pass.Package ==> schemas[s].EntryPoint == pass.EntryPoint && schemas[s].EntryPointType.Kind == ast.KindRef && schemas[s].EntryPointType.Ref.ReferredPkg == pass.Package && schemas[s].EntryPointType.Ref.ReferredType == pass.EntryPoint
 //@     invariant others: forall s: int :: 0 <= s && s < len(schemas) && schemas[s].Package != pass.Package ==> schemas[s].EntryPoint == old(schemas[s].EntryPoint) && schemas[s].EntryPointType == old(schemas[s].EntryPointType)
 //
-// rename_object (reference part): a reference to exactly (From.Package, From.Object) now names To;
-// any other reference is returned as it was. The referred name is updated in place (def.Ref is shared
-// with the type the visitor handed over).
+// rename_object: an object and the references to it are selected by the same predicate (package
+// compared exactly, name case-insensitively), so that a reference that resolved to the renamed
+// object still resolves to it (C05). The referred name is updated in place (def.Ref is shared with
+// the type the visitor handed over).
+//@ spec renameSelects(pass, pkg, name) = pkg == pass.From.Package && eqfold(name, pass.From.Object)
+//
 //@ func (*RenameObject).processRef
-//@   property C15
+//@   property C15 C05
 //@   requires pass != nil && def.Kind == ast.KindRef
 //@   modifies def.Ref.ReferredType
 //@   ensures  noerr: result.1 == nil
 //@   ensures  same: result.0 == def
 //@   ensures  pkg: def.Ref.ReferredPkg == old(def.Ref.ReferredPkg)
-//@   ensures  renamed: old(def.Ref.ReferredPkg == pass.From.Package && def.Ref.ReferredType == pass.From.Object) ==> def.Ref.ReferredType == pass.To
-//@   ensures  untouched: !old(def.Ref.ReferredPkg == pass.From.Package && def.Ref.ReferredType == pass.From.Object) ==> def.Ref.ReferredType == old(def.Ref.ReferredType)
+//@   ensures  renamed: old(renameSelects(pass, def.Ref.ReferredPkg, def.Ref.ReferredType)) ==> def.Ref.ReferredType == pass.To
+//@   ensures  untouched: !old(renameSelects(pass, def.Ref.ReferredPkg, def.Ref.ReferredType)) ==> def.Ref.ReferredType == old(def.Ref.ReferredType)
+//
+//@ func (*RenameObject).processObject
+//@   property C15 C05
+//@   requires pass != nil && visitor != nil
+//@   ensures  renamed: result.1 == nil && old(renameSelects(pass, object.SelfRef.ReferredPkg, object.SelfRef.ReferredType)) ==> result.0.Name == old(pass.To) && result.0.SelfRef.ReferredType == old(pass.To) && result.0.SelfRef.ReferredPkg == object.SelfRef.ReferredPkg
+//@   ensures  untouched: result.1 == nil && !old(renameSelects(pass, object.SelfRef.ReferredPkg, object.SelfRef.ReferredType)) ==> result.0.Name == object.Name && result.0.SelfRef == object.SelfRef && result.0.Comments == object.Comments && result.0.PassesTrail == object.PassesTrail
 //
 // replace_reference: a reference matching From becomes a fresh reference to To; any other reference
 // is returned as it was; nothing pre-existing is written.
@@ -320,3 +329,67 @@ package compiler
 //@   inlined-loop 0:
 //@     invariant fresh: base(output) != 0 && fresh(output)
 //@     invariant kept: fieldsKept(pass, object, input, $i + 1, output) witness src(j) := ite($i >= 0 && j == len(output) - 1 && !anyFieldMatch(pass.Fields, object, input[$i]), $i, skolem("src", "last", j)) witness kj := ite(i == $i, len(output) - 1, skolem("kj", "last", i))
+//
+// C05 - the entry point of a schema names one of its objects; a name-changing transformation has to
+// keep it in step with the object it renames. The shared visitor is used through an assumed
+// contract (read off VisitSchema: the new schema is a copy of the old one in which only Objects and
+// EntryPointType are rebuilt - package, metadata and the entry point name are carried over).
+//@ assume-contract (*Visitor).VisitSchemas
+//@   requires visitor != nil
+//@   keeps compiler.
+//@   ensures  same: result.1 == nil ==> len(result.0) == len(schemas)
+//@   ensures  distinct: result.1 == nil ==> (forall a, b: int :: 0 <= a && a < b && b < len(result.0) ==> result.0[a] != result.0[b])
+//@   ensures  carried: result.1 == nil ==> (forall s: int :: 0 <= s && s < len(schemas) ==> result.0[s] != nil && result.0[s].Package == old(schemas[s].Package) && result.0[s].EntryPoint == old(schemas[s].EntryPoint) && result.0[s].Metadata == old(schemas[s].Metadata))
+//
+//@ spec entrySelected(pass, schemas, s) = schemas[s].EntryPoint != "" && renameSelects(pass, schemas[s].Package, schemas[s].EntryPoint)
+//@ func (*RenameObject).Process
+//@   property C05
+//@   requires pass != nil && (forall s: int :: 0 <= s && s < len(schemas) ==> schemas[s] != nil)
+//@   ensures  entrypoint: result.1 == nil ==> (forall s: int :: 0 <= s && s < len(result.0) && old(entrySelected(pass, schemas, s)) ==> result.0[s].EntryPoint == old(pass.To))
+//@   ensures  others: result.1 == nil ==> (forall s: int :: 0 <= s && s < len(result.0) && !old(entrySelected(pass, schemas, s)) ==> result.0[s].EntryPoint == old(schemas[s].EntryPoint))
+//@   loop 0:
+//@     invariant len: len(newSchemas) == len(schemas) && (forall s: int :: 0 <= s && s < len(newSchemas) ==> newSchemas[s] != nil && newSchemas[s].Package == old(schemas[s].Package))
+//@     invariant pass: pass.To == old(pass.To) && pass.From == old(pass.From)
+//@     invariant done: forall s: int :: 0 <= s && s <= $i && old(entrySelected(pass, schemas, s)) ==> newSchemas[s].EntryPoint == old(pass.To)
+//@     invariant todo: forall s: int :: $i < s && s < len(newSchemas) && old(entrySelected(pass, schemas, s)) ==> newSchemas[s].EntryPoint == old(schemas[s].EntryPoint) || newSchemas[s].EntryPoint == old(pass.To)
+//@     invariant others: forall s: int :: 0 <= s && s < len(newSchemas) && !old(entrySelected(pass, schemas, s)) ==> newSchemas[s].EntryPoint == old(schemas[s].EntryPoint)
+//
+// name prefixing: every object and every reference to an object (plain and constant references,
+// the entry point) gets the same prefix, so references keep resolving.
+//@ func (*PrefixObjectNames).processRef
+//@   property C05
+//@   requires pass != nil && ref.Kind == ast.KindRef
+//@   modifies ref.Ref.ReferredType, spare-capacity
+//@   ensures  prefixed: result.1 == nil && ref.Ref.ReferredType == pass.Prefix + old(ref.Ref.ReferredType) && ref.Ref.ReferredPkg == old(ref.Ref.ReferredPkg)
+//@   ensures  same: result.0.Ref == ref.Ref && result.0.Kind == ref.Kind
+//
+//@ func (*PrefixObjectNames).processConstantRef
+//@   property C05
+//@   requires pass != nil && ref.Kind == ast.KindConstantRef
+//@   modifies ref.ConstantReference.ReferredType, spare-capacity
+//@   ensures  prefixed: result.1 == nil && ref.ConstantReference.ReferredType == pass.Prefix + old(ref.ConstantReference.ReferredType) && ref.ConstantReference.ReferredPkg == old(ref.ConstantReference.ReferredPkg)
+//@   ensures  same: result.0.ConstantReference == ref.ConstantReference && result.0.Kind == ref.Kind
+//
+//@ func (*PrefixObjectNames).processObject
+//@   property C05
+//@   requires pass != nil && visitor != nil
+//@   ensures  prefixed: result.1 == nil ==> result.0.Name == old(pass.Prefix) + object.Name && result.0.SelfRef.ReferredType == old(pass.Prefix) + object.Name && result.0.SelfRef.ReferredPkg == object.SelfRef.ReferredPkg
+//
+//@ func (*PrefixObjectNames).Process
+//@   property C05
+//@   requires pass != nil && (forall s: int :: 0 <= s && s < len(schemas) ==> schemas[s] != nil)
+//@   ensures  entrypoint: result.1 == nil && old(pass.Prefix) != "" ==> (forall s: int :: 0 <= s && s < len(result.0) && old(schemas[s].EntryPoint) != "" ==> result.0[s].EntryPoint == old(pass.Prefix) + old(schemas[s].EntryPoint))
+//@   loop 0:
+//@     invariant len: len(newSchemas) == len(schemas) && (forall s: int :: 0 <= s && s < len(newSchemas) ==> newSchemas[s] != nil)
+//@     invariant pass: pass.Prefix == old(pass.Prefix)
+//@     invariant distinct: forall a, b: int :: 0 <= a && a < b && b < len(newSchemas) ==> newSchemas[a] != newSchemas[b]
+//@     invariant done: forall s: int :: 0 <= s && s <= $i && old(schemas[s].EntryPoint) != "" ==> newSchemas[s].EntryPoint == old(pass.Prefix) + old(schemas[s].EntryPoint)
+//@     invariant todo: forall s: int :: $i < s && s < len(newSchemas) ==> newSchemas[s].EntryPoint == old(schemas[s].EntryPoint)
+//
+//@ func (*RenameObject).processConstantRef
+//@   property C05
+//@   requires pass != nil && def.Kind == ast.KindConstantRef
+//@   modifies def.ConstantReference.ReferredType
+//@   ensures  noerr: result.1 == nil && result.0 == def
+//@   ensures  renamed: old(renameSelects(pass, def.ConstantReference.ReferredPkg, def.ConstantReference.ReferredType)) ==> def.ConstantReference.ReferredType == pass.To
+//@   ensures  untouched: !old(renameSelects(pass, def.ConstantReference.ReferredPkg, def.ConstantReference.ReferredType)) ==> def.ConstantReference.ReferredType == old(def.ConstantReference.ReferredType)
